@@ -1,0 +1,30 @@
+//go:build verif
+
+package kessoku
+
+import (
+	vs "github.com/mazrean/kessoku/internal/verifspec"
+)
+
+// ---------------------------------------------------------------------------
+// C12 / C04: the name allocator.
+//
+// Abstract view of a pool: issued(p) = { s | p.vars[s] >= 1 } - every
+// identifier that was handed out or pre-registered (keywords, predeclared
+// names, the user's package-level names, import names).
+// ---------------------------------------------------------------------------
+
+func issued(p *VarPool, s string) bool { return p.vars[s] >= 1 }
+
+//kvc:contract (*VarPool).GetName
+func contract_VarPool_GetName(p *VarPool, baseName string) (result string) {
+	vs.Requires(p != nil && p.vars != nil)
+	vs.Ensures("fresh", !vs.Old(issued(p, result)))
+	vs.Ensures("recorded", issued(p, result) && issued(p, baseName))
+	vs.Ensures("monotone", vs.ForallString(func(s string) bool { return vs.Implies(vs.Old(issued(p, s)), issued(p, s)) }))
+	vs.Ensures("exact", vs.ForallString(func(s string) bool {
+		return vs.Implies(issued(p, s), vs.Old(issued(p, s)) || s == result || s == baseName)
+	}))
+	vs.Modifies(p.vars)
+	return
+}
